@@ -15,7 +15,9 @@ def msg_lengths(cap, tier, dense_upto=0):
     return sorted(x for x in s if 0 <= x <= cap + 1)
 
 
-def new_message(sx, n, long_trick):
+def new_message(sx, n, long_trick, concrete=False):
+    if concrete:
+        return sx.mkbytes([(0x80 | (i * 11 + i // 251)) & 0xFF for i in range(n)], True)
     if long_trick:
         return sx.mkbytes([sx.int("msg[%d]" % i, 0x80, 0xFF) for i in range(n)], True)
     return sx.bytes("msg", n, mutable=True)
@@ -46,7 +48,8 @@ def roundtrip(sx, world, n, prop="C01"):
         sx.check(cap <= world.cap, "capacity-exceeds-layout:" + kind)
         sx.check(sx.eq(ndef.octets, world.old), "initial-read-differs:" + kind)
     cap = sx.concrete(cap)
-    msg = new_message(sx, n, getattr(world, 'long_trick', False))
+    msg = new_message(sx, n, getattr(world, 'long_trick', False),
+                      getattr(world, 'concrete_msg', False))
     before = world.snapshot()
     ncmd = world.sim.ncmd
     for l in world.geometry(n):
